@@ -14,6 +14,7 @@ import (
 	"github.com/basecomplextech/baselibrary/logging"
 	"github.com/basecomplextech/baselibrary/opt"
 	"github.com/basecomplextech/baselibrary/status"
+	"github.com/basecomplextech/spec/internal/verifpoint"
 )
 
 // Client is a SpecMPX client which manages outgoing connections.
@@ -155,6 +156,7 @@ func (c *client) Close() status.Status {
 		return status.OK
 	}
 	c.closed_.Set()
+	verifpoint.Point("client.close", verifpoint.Ptr(c), 0, 0)
 
 	// Stop connecting
 	if routine, ok := c.connecting.Clear(); ok {
@@ -231,6 +233,7 @@ var _ connDelegate = (*client)(nil)
 
 // onConnClosed is called when the connection is closed.
 func (c *client) onConnClosed(conn internalConn) {
+	verifpoint.Point("client.onConnClosed", verifpoint.Ptr(c), 0, 0)
 	c.mu.Lock()
 	defer c.mu.Unlock()
 
@@ -284,6 +287,7 @@ func (c *client) conn() (internalConn, async.Future[internalConn], status.Status
 	}
 
 	// Slow path
+	verifpoint.Point("client.conn.slow", verifpoint.Ptr(c), 0, 0)
 	c.mu.Lock()
 	defer c.mu.Unlock()
 
@@ -378,6 +382,7 @@ func (c *client) connectRecover(ctx async.Context) (_ internalConn, st status.St
 	// Sleep before reconnecting
 	if attempt > 1 {
 		timeout := reconnectTimeout(attempt)
+		verifpoint.Point("client.backoff", int64(attempt), int64(timeout), verifpoint.Ptr(c))
 
 		select {
 		case <-ctx.Wait():
@@ -404,6 +409,7 @@ func (c *client) connectRecover(ctx async.Context) (_ internalConn, st status.St
 
 	conns := c.conns.Load().add(conn)
 	c.conns.Store(conns)
+	verifpoint.Point("client.conns", int64(conns.len()), int64(c.options.ClientMaxConns), verifpoint.Ptr(c))
 	c.connectAttempt = 0
 
 	c.connected_.Set()
